@@ -4,6 +4,7 @@ From Coq Require Import ZArith List Bool Lia.
 Import ListNotations.
 Require Import Amoco.C12.Comp Amoco.C12.Proofs.
 Require Import Amoco.Exp.Sem Amoco.Exp.Cst Amoco.Exp.CstProofs Amoco.Exp.Eval Amoco.Exp.EvalProofs.
+Require Import Amoco.Exp.Rules Amoco.Exp.RulesProofs Amoco.Exp.Rules2 Amoco.Exp.Rules2Proofs.
 Open Scope Z_scope.
 
 (* One slice assignment keeps the parts an exact tiling (no gap, no overlap), wherever the slice falls. *)
@@ -37,6 +38,17 @@ Proof.
     try (destruct (csz a <=? cv b)); injection H as <-; reflexivity.
 Qed.
 Print Assumptions C12_cst_widths.
+
+(* every modelled rewrite rule of the simplifier (eqn1_helpers / eqn2_helpers / slc.simplify / tst.simplify) returns a node of
+   the width of the node it rewrites - for every operand tree *)
+Theorem C12_rewrite_rules_keep_width : forall r, In r (rules_unconditional ++ rules2_unconditional) ->
+  forall e e', wf e = true -> r e = Some e' -> esize e' = esize e.
+Proof.
+  intros r Hin e e' W R. apply in_app_or in Hin. destruct Hin as [H|H].
+  - exact (proj1 (proj1 (Forall_forall _ _) rules_sound r H e e' W R)).
+  - exact (proj1 (proj1 (Forall_forall _ _) rules2_sound r H e e' W R)).
+Qed.
+Print Assumptions C12_rewrite_rules_keep_width.
 
 Example C12_nonvacuous :
   tiles 0 32 [P 0 32 0 0] /\
